@@ -8,7 +8,9 @@ names:
   ("sig", name, index, value)     a value assigned to an input or output signal
   ("con", id, leaves, lhs, rhs)   a constraint (=== or <==) that mentions an input or output signal:
                                   directly, or through a local / intermediate signal whose current value
-                                  was computed from one (data dependence, tracked per value);
+                                  was computed from one, or was assigned (or could have been assigned: both
+                                  branches, loop bodies) under a branch / loop whose condition depends on one
+                                  (data AND control dependence = information flow, tracked per value; third audit);
                                   `leaves` are the values of all names the constraint reads
   ("assert", id, value)           an assertion
   ("ret", value)                  the return value (ends the run)
@@ -122,6 +124,31 @@ def binop(op, a, b):
     raise ValueError(op)
 
 
+def comp_hash(tmpl, args, ports, port):
+    acc = 777 + sum(ord(ch) for ch in tmpl + port)
+    d = False
+    for k, a in enumerate(args):
+        acc = (acc * 1000003 + (k + 1) * a[0] + 11) % P
+        d = d or a[1]
+    for name in sorted(ports):
+        v = ports[name]
+        acc = (acc * 1000033 + sum(ord(ch) for ch in name) * 7 + 3 * v[0] + 5) % P
+        d = d or v[1]
+    return (acc, d)
+
+
+def assigned_in(ss, acc=None):
+    """Names (locals, signals, components) syntactically assigned by the statements, nested ones included."""
+    acc = set() if acc is None else acc
+    for s in all_stmts(ss):
+        t = s[0]
+        if t in ("decl", "assign", "incr", "sigassign", "compdecl", "portassign"):
+            acc.add(s[1])
+        elif t == "tupledecl":
+            acc.update(s[1])
+    return acc
+
+
 class Run:
     def __init__(self, prog, params, inputs, perturb=None, budget=400):
         self.prog = prog
@@ -134,6 +161,8 @@ class Run:
         self.pid = None
         self.pval = None
         self.executed = set()
+        self.ctx = False       # the current statement is control dependent on a condition that depends on an exported signal
+        self.comp = {}         # component name -> {"args": [(v, d)..], "ports": {port: (v, d)}}
         if perturb is not None:
             if perturb[0] == "param":
                 self.scopes[0][perturb[1]] = (perturb[2] % P, False)
@@ -217,7 +246,24 @@ class Run:
             return (acc, d)
         if t == "arr":
             return [self.ev(a, leaves) for a in e[1]]
+        if t == "port":
+            v = self.comp_value(e[1], e[2])
+            if leaves is not None:
+                leaves.append(v[0])
+            return v
+        if t == "anon":
+            args = [leaf(self.ev(a, leaves)) for a in e[2]]
+            ins = [leaf(self.ev(a, leaves)) for a in e[3]]
+            return comp_hash(e[1], args, dict(("a%d" % k, v) for k, v in enumerate(ins)), "b")
         raise ValueError(t)
+
+    def comp_value(self, c, port):
+        """An output port of a sub-component: an uninterpreted deterministic function of the template, its
+        arguments and everything assigned to its input ports so far."""
+        st = self.comp.get(c)
+        if st is None:
+            return (0, False)
+        return comp_hash(st["tmpl"], st["args"], st["ports"], port)
 
     def dims(self, st, ds):
         if ds:
@@ -242,11 +288,27 @@ class Run:
 
     def stored(self, st, val):
         """The value an assignment stores (perturbed if this is the flagged statement)."""
+        if self.ctx:
+            val = mark(val) if isinstance(val, list) else (val[0], True)
         if self.pid is not None and st[-1].get("id") == self.pid:
             if isinstance(val, list):
                 return [(self.pval, d) for _, d in val]
             return (self.pval, val[1])
         return val
+
+    def taint_assigned(self, ss):
+        """After a branch / loop whose condition depends on an exported signal: everything that either
+        branch (the loop body) assigns carries the dependence, whether or not it was executed."""
+        for n in assigned_in(ss):
+            sc = self.lookup(n)
+            if sc is not None:
+                v = sc[n]
+                sc[n] = mark(v) if isinstance(v, list) else (v[0], True)
+            elif n in self.sig:
+                kind, val = self.sig[n]
+                self.sig[n] = (kind, mark(val) if isinstance(val, list) else (val[0], True))
+            elif n in self.comp:
+                self.comp[n]["args"] = [(a[0], True) for a in self.comp[n]["args"]] or [(0, True)]
 
     def stmt(self, st):
         self.tick()
@@ -313,6 +375,7 @@ class Run:
             name, idx, op = st[1], st[2], st[3]
             leaves = []
             rhs = leaf(self.ev(st[4], leaves))
+            rhs = (rhs[0], rhs[1] or self.ctx)
             kind, cur = self.sig.get(name, ("mid", (0, False)))
             ivs = ()
             if idx:
@@ -328,6 +391,30 @@ class Run:
                 self.events.append(("sig", name, ivs, rhs[0]))
             if op == "<==" and (kind != "mid" or rhs[1]):
                 self.events.append(("con", st[-1]["id"], tuple(leaves), ivs, rhs[0]))
+        elif t == "compdecl":
+            self.comp[st[1]] = {"tmpl": st[2], "args": [leaf(self.ev(a, None)) for a in st[3]], "ports": {}}
+            if self.ctx:
+                self.comp[st[1]]["args"].append((0, True))
+        elif t == "portassign":
+            c, port, op = st[1], st[2], st[3]
+            leaves = []
+            rhs = leaf(self.ev(st[4], leaves))
+            rhs = (rhs[0], rhs[1] or self.ctx)
+            cs = self.comp.setdefault(c, {"tmpl": "?", "args": [], "ports": {}})
+            before = comp_hash(cs["tmpl"], cs["args"], cs["ports"], "")
+            cs["ports"][port] = rhs
+            # an input port of a sub-component is not an input/output signal of THIS template: the assignment is
+            # an effect only as a constraint that mentions an exported signal (through the value or the component)
+            if op == "<==" and (rhs[1] or before[1]):
+                self.events.append(("con", st[-1]["id"], tuple(leaves), port, rhs[0]))
+        elif t == "tupledecl":
+            vals = [leaf(self.ev(e, None)) for e in st[2]]
+            for n, v in zip(st[1], vals):
+                if self.ctx:
+                    v = (v[0], True)
+                if self.pid is not None and self.pid == (st[-1].get("id"), n):
+                    v = (self.pval, v[1])
+                self.scopes[-1][n] = v
         elif t == "ceq":
             leaves = []
             a = self.ev(st[1], leaves)
@@ -343,33 +430,59 @@ class Run:
             self.events.append(("ret", v[0]))
             raise Stop()
         elif t == "if":
-            c = self.ev(st[1], None)[0] != 0
+            cv = self.ev(st[1], None)
+            c = cv[0] != 0
             self.events.append(("br", st[-1]["id"], c))
-            if c:
-                self.block(st[2])
-            elif st[3] is not None:
-                self.block(st[3])
+            old = self.ctx
+            self.ctx = old or cv[1]
+            try:
+                if c:
+                    self.block(st[2])
+                elif st[3] is not None:
+                    self.block(st[3])
+            finally:
+                self.ctx = old
+            if cv[1]:
+                self.taint_assigned(st[2] + (st[3] or []))
         elif t == "while":
-            while True:
-                self.tick()
-                c = self.ev(st[1], None)[0] != 0
-                self.events.append(("br", st[-1]["id"], c))
-                if not c:
-                    break
-                self.block(st[2])
+            old = self.ctx
+            dep = False
+            try:
+                while True:
+                    self.tick()
+                    cv = self.ev(st[1], None)
+                    c = cv[0] != 0
+                    dep = dep or cv[1]
+                    self.ctx = old or dep
+                    self.events.append(("br", st[-1]["id"], c))
+                    if not c:
+                        break
+                    self.block(st[2])
+            finally:
+                self.ctx = old
+                if dep:
+                    self.taint_assigned(st[2])
         elif t == "for":
             self.scopes.append({})
+            old = self.ctx
+            dep = False
             try:
                 self.stmt(st[1])
                 while True:
                     self.tick()
-                    c = self.ev(st[2], None)[0] != 0
+                    cv = self.ev(st[2], None)
+                    c = cv[0] != 0
+                    dep = dep or cv[1]
+                    self.ctx = old or dep
                     self.events.append(("br", st[-1]["id"], c))
                     if not c:
                         break
                     self.block(st[4])
                     self.stmt(st[3])
             finally:
+                self.ctx = old
+                if dep:
+                    self.taint_assigned(st[4] + [st[3]])
                 self.scopes.pop()
         elif t == "block":
             self.block(st[1])
@@ -407,11 +520,14 @@ def find_assignments(prog, name, start, end):
     for s in all_stmts(prog["body"]):
         if s[0] in ("decl", "assign", "incr") and s[-1].get("span") == (start, end) and s[1] == name:
             out.append(s)
+        elif s[0] == "tupledecl" and s[-1].get("span") == (start, end) and name in s[1]:
+            out.append(s)
     return out
 
 
 def find_signal_assignments(prog, name, start, end):
-    return [s for s in all_stmts(prog["body"]) if s[0] == "sigassign" and s[-1].get("span") == (start, end) and s[1] == name]
+    return [s for s in all_stmts(prog["body"]) if s[0] in ("sigassign", "compdecl", "portassign")
+            and s[-1].get("span") == (start, end) and s[1] == name]
 
 
 def valuations(prog, rng, n):
@@ -455,7 +571,7 @@ def check_program(prog, claims, rng, nval=32, nrep=8):
             if verdicts[ci] is not None:
                 continue
             probe = mk(0)
-            if probe[0] == "stmt" and probe[1] not in r.executed:
+            if probe[0] == "stmt" and (probe[1][0] if isinstance(probe[1], tuple) else probe[1]) not in r.executed:
                 continue
             for v in REPLACEMENTS[:nrep]:
                 r2 = Run(prog, params, inputs, mk(v))
